@@ -199,6 +199,7 @@ static PInputTag GenerateProcessor(void) {
     PInp->LineCnt = 0;
     PInp->LineZ   = 1;
     PInp->Lines = PInp->LineRun = NULL;
+    PInp->LineNums = NULL;
     StrCompMkTemp(&PInp->SpecName, PInp->SpecNameStr, sizeof(PInp->SpecNameStr));
     StrCompReset(&PInp->SpecName);
     PInp->AllArgs[0]    = '\0';
@@ -221,6 +222,16 @@ static PInputTag GenerateProcessor(void) {
     PInp->FromFile = (!FirstInputTag) || (FirstInputTag->Processor == INCLUDE_Processor);
 
     return PInp;
+}
+
+/* store one body line of REPT/IRP/IRPC/WHILE together with its distance to the
+   opening statement: a statement written with continuation lines spans more
+   than one source line */
+
+static void AddBodyLine(PInputTag Tag, char const* pLine) {
+    AddStringListLast(&(Tag->Lines), pLine);
+    Tag->LineNums = (LongInt*)realloc(Tag->LineNums, (Tag->LineCnt + 1) * sizeof(LongInt));
+    Tag->LineNums[Tag->LineCnt++] = CurrLine - Tag->StartLine;
 }
 
 static POutputTag GenerateOUTProcessor(SimpProc Processor, tErrorNum OpenErrMsg) {
@@ -1042,7 +1053,7 @@ Boolean IRP_Processor(PInputTag PInp, as_dynstr_t* p_dest) {
 
     CurrLine = PInp->StartLine;
     if (PInp->FromFile) {
-        CurrLine += PInp->LineZ;
+        CurrLine += PInp->LineNums[PInp->LineZ - 1];
     }
 
     /* first line? Then open new symbol space and reset line pointer */
@@ -1187,9 +1198,8 @@ static void IRP_OutProcessor(void) {
         for (int z = 1; z <= ParIter; z++) {
             CompressLine(GetStringListNext(&l), z, &s, CaseSensitive);
         }
-        AddStringListLast(&(FirstOutputTag->Tag->Lines), s.p_str);
+        AddBodyLine(FirstOutputTag->Tag, s.p_str);
         as_dynstr_free(&s);
-        FirstOutputTag->Tag->LineCnt++;
     }
 
     /* alles zusammen? Dann umhaengen */
@@ -1207,6 +1217,7 @@ static void IRP_OutProcessor(void) {
         } else {
             ClearStringList(&(Tmp->Tag->Lines));
             ClearStringList(&(Tmp->Tag->Params));
+            free(Tmp->Tag->LineNums);
             free(Tmp->Tag);
         }
         ClearStringList(&(Tmp->ParamNames));
@@ -1463,7 +1474,7 @@ Boolean IRPC_Processor(PInputTag PInp, as_dynstr_t* p_dest) {
 
     CurrLine = PInp->StartLine;
     if (PInp->FromFile) {
-        CurrLine += PInp->LineZ;
+        CurrLine += PInp->LineNums[PInp->LineZ - 1];
     }
 
     /* first line? Then open new symbol space and reset line pointer */
@@ -1637,7 +1648,7 @@ Boolean REPT_Processor(PInputTag PInp, as_dynstr_t* p_dest) {
 
     CurrLine = PInp->StartLine;
     if (PInp->FromFile) {
-        CurrLine += PInp->LineZ;
+        CurrLine += PInp->LineNums[PInp->LineZ - 1];
     }
 
     /* first line? Then open new symbol space and reset line pointer */
@@ -1686,8 +1697,7 @@ static void REPT_OutProcessor(void) {
     /* falls noch nicht zuende, weiterzaehlen */
 
     if (FirstOutputTag->NestLevel > -1) {
-        AddStringListLast(&(FirstOutputTag->Tag->Lines), OneLine.p_str);
-        FirstOutputTag->Tag->LineCnt++;
+        AddBodyLine(FirstOutputTag->Tag, OneLine.p_str);
     }
 
     /* alles zusammen? Dann umhaengen */
@@ -1703,6 +1713,7 @@ static void REPT_OutProcessor(void) {
             FirstInputTag  = Tmp->Tag;
         } else {
             ClearStringList(&(Tmp->Tag->Lines));
+            free(Tmp->Tag->LineNums);
             free(Tmp->Tag);
         }
         free(Tmp);
@@ -1823,7 +1834,7 @@ Boolean WHILE_Processor(PInputTag PInp, as_dynstr_t* p_dest) {
 
     CurrLine = PInp->StartLine;
     if (PInp->FromFile) {
-        CurrLine += PInp->LineZ;
+        CurrLine += PInp->LineNums[PInp->LineZ - 1];
     }
 
     /* if this is the first line of the loop body, open a new handle
@@ -1892,8 +1903,7 @@ static void WHILE_OutProcessor(void) {
     /* falls noch nicht zuende, weiterzaehlen */
 
     if (FirstOutputTag->NestLevel > -1) {
-        AddStringListLast(&(FirstOutputTag->Tag->Lines), OneLine.p_str);
-        FirstOutputTag->Tag->LineCnt++;
+        AddBodyLine(FirstOutputTag->Tag, OneLine.p_str);
     }
 
     /* alles zusammen? Dann umhaengen */
@@ -1916,6 +1926,7 @@ static void WHILE_OutProcessor(void) {
             FirstInputTag  = Tmp->Tag;
         } else {
             ClearStringList(&(Tmp->Tag->Lines));
+            free(Tmp->Tag->LineNums);
             free(Tmp->Tag);
         }
         free(Tmp);
@@ -2149,6 +2160,7 @@ static void GetNextLine(as_dynstr_t* pLine) {
         FirstInputTag->Restorer(FirstInputTag);
         HTag          = FirstInputTag;
         FirstInputTag = HTag->Next;
+        free(HTag->LineNums);
         free(HTag);
     }
 
